@@ -120,7 +120,7 @@ func TestC07(t *testing.T) {
 	st := newStats("C07")
 	defer st.Write()
 	_, nsh := shard()
-	n := 60000
+	n := 150000
 	if thorough() {
 		n = 1500000
 	}
